@@ -124,11 +124,27 @@ func runC09(c *Ctx) {
 				if nilPtrNormalised {
 					// the nil replacement is taken only on an edge where reflect reported a nil pointer
 					okNil := false
-					for _, ci := range core.Calls(cw) {
-						if f := core.StaticCallee(ci); f != nil && core.MethodIs(f, "reflect", "Value", "IsNil") {
-							if call, ok := ci.(*ssa.Call); ok && len(boolEdges(call, true)) > 0 {
-								okNil = true
+					hasIsNil := func(fn *ssa.Function) bool {
+						for _, hi := range core.Calls(fn) {
+							if f := core.StaticCallee(hi); f != nil && core.MethodIs(f, "reflect", "Value", "IsNil") {
+								return true
 							}
+						}
+						return false
+					}
+					for _, ci := range core.Calls(cw) {
+						f := core.StaticCallee(ci)
+						call, isCall := ci.(*ssa.Call)
+						if f == nil || !isCall {
+							continue
+						}
+						if core.MethodIs(f, "reflect", "Value", "IsNil") && len(boolEdges(call, true)) > 0 {
+							okNil = true
+						}
+						// a predicate of the package that asks reflect (isNilPointer(src))
+						if c.P.InPkg(f, "wire") && f.Blocks != nil && hasIsNil(f) && len(boolEdges(call, true)) > 0 {
+							okNil = true
+							R.Analysed(fname(f))
 						}
 					}
 					isSrc = isSrc && okNil
